@@ -737,3 +737,51 @@ def gate_check(H):
     H.prove(H.call(SVG.checkpicosvg, SVG(ok_root), allow_text=allow_text, drop_unsupported=drop) == (), "gate.conforming_tree_passes")
     no_defs = el("svg", {}, [el("path", {"d": "M2,2"})])
     H.prove(any("MissingElement" in s and "defs" in s for s in H.call(SVG.checkpicosvg, SVG(no_defs), allow_text=allow_text, drop_unsupported=drop)), "gate.missing_defs_reported")
+
+
+@obligation(("C02", "C13", "C03", "C09"), "shape.apply_transform", functions=["svg_types.SVGShape.apply_transform"])
+def shape_apply_transform(H):
+    """SVGShape.apply_transform(T): a NEW path whose data is svg_pathops.transform(as_cmd_seq(), T) - the engine gets the
+    shape's normalised commands and exactly the caller's matrix - unless T is degenerate (|det| <= float epsilon, and only
+    then), where the path collapses to M0,0; every other field is carried over; the receiver is not modified."""
+    import sys
+
+    from picosvg import svg_pathops
+    from picosvg.svg_transform import Affine2D
+    from picosvg.svg_types import SVGPath, SVGRect, SVGShape
+
+    kind = H.case("receiver", ("path", "rect"))
+    if H.mode == "concrete":
+        p = SVGPath(d="M0,0 L4,0 L4,3 Z", fill="red")
+        q = p.apply_transform(Affine2D(2e-5, 0, 0, 2e-5, 1, 2))
+        H.prove(p.d == "M0,0 L4,0 L4,3 Z" and q is not p and q.fill == "red" and q.d != "M0,0", "apply_transform.collapses_only_for_degenerate_matrices", detail=q.d)
+        return
+    T = Affine2D(*H.reals("t", 6))
+    det = T[0] * T[3] - T[1] * T[2]
+    calls = []
+    src_cmds = [("M", (1.0, 2.0)), ("L", (3.0, 4.0))]
+
+    def rec_transform(I, cmds, affine):
+        calls.append((list(cmds), affine))
+        return iter([("M", (7.0, 8.0)), ("L", (9.0, 1.0))])
+
+    H.override(svg_pathops.transform, rec_transform)
+    H.override(SVGShape.as_cmd_seq, lambda I, self_: iter(list(src_cmds)))
+    shape = SVGPath(d="M1,2 L3,4", fill="red", opacity=0.5, id="s") if kind == "path" else SVGRect(x=1.0, y=2.0, width=3.0, height=4.0, fill="red", opacity=0.5, id="s")
+    before = (getattr(shape, "d", None), shape.fill, shape.opacity, shape.id)
+    res, e = H.catch(SVGShape.apply_transform, shape, T)
+    H.prove(e is None and isinstance(res, SVGPath) and res is not shape, "apply_transform.returns_a_new_path", detail=repr(e))
+    if e is not None:
+        return
+    H.prove((getattr(shape, "d", None), shape.fill, shape.opacity, shape.id) == before, "apply_transform.receiver_not_modified")
+    H.prove(res.fill == "red" and res.opacity == 0.5 and res.id == "s", "apply_transform.other_fields_carried_over")
+    eps = sys.float_info.epsilon
+    if calls:
+        ok = len(calls) == 1 and calls[0][0] == src_cmds
+        H.prove(ok, "apply_transform.engine_gets_the_normalised_commands_once")
+        H.prove(H.close(tuple(calls[0][1]), tuple(T)), "apply_transform.engine_gets_the_callers_matrix")
+        H.prove(res.d.replace(" ", "") == "M7,8L9,1", "apply_transform.result_is_the_engines_answer", detail=res.d)
+        H.prove(Or(det > eps, -det > eps), "apply_transform.collapses_only_for_degenerate_matrices")
+    else:
+        H.prove(res.d.replace(" ", "") == "M0,0", "apply_transform.degenerate_matrix_collapses_to_a_point", detail=res.d)
+        H.prove(And(det <= eps, -det <= eps), "apply_transform.collapses_only_for_degenerate_matrices")
